@@ -236,7 +236,7 @@ theorem wf_destroyStep {ss : SymSet} {pre post : Ind} {idx : Nat} (h : WF ss pre
       rw [this]; exact h.genes i hi c hc'
 
 theorem destroyBlock_refines {ss : SymSet} {x : Ind} {idx : Nat} {d : Nat → GDraw}
-    (h : WF ss x) (hd : ∀ c, c < x.cols → TDrawOK ss c (d c)) :
+    (hd : ∀ c, c < x.cols → TDrawOK ss c (d c)) :
     DestroyStep ss x idx (destroyBlock ss x idx d) := by
   refine ⟨SameShape.refl x, rfl, rfl, rfl, ?_⟩
   intro i hi c hc
@@ -252,7 +252,7 @@ theorem destroyBlock_refines {ss : SymSet} {x : Ind} {idx : Nat} {d : Nat → GD
 theorem wf_destroy_block {ss : SymSet} {x : Ind} {idx : Nat} {d : Nat → GDraw}
     (h : WF ss x) (hd : ∀ c, c < x.cols → TDrawOK ss c (d c)) :
     WF ss (destroyBlock ss x idx d) :=
-  wf_destroyStep h (destroyBlock_refines h hd)
+  wf_destroyStep h (destroyBlock_refines hd)
 
 /-! ## crossover -/
 
@@ -274,10 +274,6 @@ theorem wf_of_pointwise {ss : SymSet} {a b x : Ind} (ha : WF ss a) (hb : WF ss b
     · rw [h]
       have := hb.genes i (by rw [hab.1]; exact hi) c (by rw [hab.2]; exact hc)
       rw [hab.1, hab.2] at this; exact this
-
-def Pointwise (frm to post : Ind) : Prop :=
-  ∀ i, i < frm.rows → ∀ c, c < frm.cols →
-    post.gene i c = frm.gene i c ∨ post.gene i c = to.gene i c
 
 theorem xover_provenance_one_point {frm to post : Ind} (h : OnePoint frm to post) :
     Pointwise frm to post := by
@@ -368,12 +364,12 @@ theorem crossover_refines {lhs rhs : Ind} (d : XDraw) (hd : XDrawOK (if d.b then
       · intro i _ c _
         simp [xoverGene, h0]
     · by_cases h1 : frm.xover = 1
-      · simp only [h0, h1, if_true, if_false]
+      · simp only [h1, if_true]
         refine ⟨d.cut1, hc1, d.cut2, hc2, by omega, ?_⟩
         intro i _ c _
         simp [xoverGene, h1]
       · by_cases h3 : frm.xover = 3
-        · simp only [h0, h1, h3, if_true, if_false]
+        · simp only [h3, if_true]
           intro i _ c _
           show xoverGene frm to d i c = _ ∨ xoverGene frm to d i c = _
           unfold xoverGene
@@ -485,23 +481,6 @@ theorem wf_incAgeStep {ss : SymSet} {pre post : Ind} (h : WF ss pre) (hs : IncAg
 
 /-! ## closure over operator histories -/
 
-/-- individuals reachable from randomly created ones by any sequence of the public genetic
-    operations (each operation as the step relation the driver decides on real executions) -/
-inductive Reachable (ss : SymSet) (rows : Nat) : Ind → Prop
-  | random {pl : Nat} {post : Ind} : pl < rows → RandomStep ss rows pl post → Reachable ss rows post
-  | mutation {pl : Nat} {pre post : Ind} :
-      Reachable ss rows pre → pl < rows → MutStep ss pl pre post → Reachable ss rows post
-  | crossover {lhs rhs post : Ind} :
-      Reachable ss rows lhs → Reachable ss rows rhs → CrossStep lhs rhs post → Reachable ss rows post
-  | getBlock {pre post : Ind} {l : Locus} :
-      Reachable ss rows pre → Inside pre l → GetBlockStep pre l post → Reachable ss rows post
-  | destroyBlock {pre post : Ind} {idx : Nat} :
-      Reachable ss rows pre → DestroyStep ss pre idx post → Reachable ss rows post
-  | replace {pre post : Ind} {l : Locus} {g : Gene} :
-      Reachable ss rows pre → Compatible ss pre l g → ReplaceStep pre l g post → Reachable ss rows post
-  | cse {pre post : Ind} : Reachable ss rows pre → CseStep pre post → Reachable ss rows post
-  | incAge {pre post : Ind} : Reachable ss rows pre → IncAgeStep pre post → Reachable ss rows post
-
 /-- Every reachable individual is well-formed (and has the size of the problem). -/
 theorem wf_closed {ss : SymSet} (hc : 0 < ss.cats) {rows : Nat} {x : Ind}
     (h : Reachable ss rows x) : WF ss x ∧ x.rows = rows := by
@@ -517,16 +496,6 @@ theorem wf_closed {ss : SymSet} (hc : 0 < ss.cats) {rows : Nat} {x : Ind}
   | replace _ hg hs ih => exact ⟨wf_replaceStep ih.1 hg hs, by rw [hs.1.1]; exact ih.2⟩
   | cse _ hs ih => exact ⟨wf_cseStep ih.1 hs, by rw [hs.1.1]; exact ih.2⟩
   | incAge _ hs ih => exact ⟨wf_incAgeStep ih.1 hs, by rw [hs.1.1]; exact ih.2⟩
-
-/-- teams reachable from randomly created ones -/
-inductive TReachable (ss : SymSet) (rows : Nat) : Team → Prop
-  | random {pl : Nat} {post : Team} : pl < rows → TeamRandomStep ss rows pl post → TReachable ss rows post
-  | ofMembers {t : Team} : (∀ x ∈ t, Reachable ss rows x) → TReachable ss rows t
-  | mutation {pl : Nat} {pre post : Team} :
-      TReachable ss rows pre → pl < rows → TeamMutStep ss pl pre post → TReachable ss rows post
-  | crossover {lhs rhs post : Team} :
-      TReachable ss rows lhs → TReachable ss rows rhs → rhs.length = lhs.length →
-      TeamCrossStep lhs rhs post → TReachable ss rows post
 
 /-- Every member of a reachable team is reachable as an individual … -/
 theorem team_members_reachable {ss : SymSet} {rows : Nat} {t : Team}
@@ -553,27 +522,6 @@ theorem wf_closed_team {ss : SymSet} (hc : 0 < ss.cats) {rows : Nat} {t : Team}
 
 /-! ## closure over histories of the operator *functions* (explicit draws) -/
 
-/-- individuals produced by any finite sequence of the model operators, every draw being an
-    arbitrary value allowed by the contract of the random primitive that produces it -/
-inductive ReachableF (ss : SymSet) (rows : Nat) : Ind → Prop
-  | random {pl xo : Nat} {d : Nat → Nat → GDraw} : pl < rows → xo < 4 →
-      (∀ i, i < rows → ∀ c, c < ss.cats → DrawOK ss rows pl i c (d i c)) →
-      ReachableF ss rows (randomInd ss rows pl xo d)
-  | mutation {x : Ind} {pl : Nat} {eqv : Gene → Gene → Bool} {bern : Nat → Nat → Bool}
-      {d : Nat → Nat → GDraw} : ReachableF ss rows x → pl < rows →
-      (∀ i, i < x.rows → ∀ c, c < x.cols → DrawOK ss x.rows pl i c (d i c)) →
-      ReachableF ss rows (mutation ss pl eqv bern d x).1
-  | crossover {x y : Ind} {d : XDraw} : ReachableF ss rows x → ReachableF ss rows y →
-      XDrawOK (if d.b then y else x) d → ReachableF ss rows (crossover x y d)
-  | getBlock {x : Ind} {l : Locus} : ReachableF ss rows x → Inside x l →
-      ReachableF ss rows (getBlock x l)
-  | destroyBlock {x : Ind} {idx : Nat} {d : Nat → GDraw} : ReachableF ss rows x →
-      (∀ c, c < x.cols → TDrawOK ss c (d c)) → ReachableF ss rows (destroyBlock ss x idx d)
-  | replace {x : Ind} {l : Locus} {g : Gene} : ReachableF ss rows x → Compatible ss x l g →
-      ReachableF ss rows (replace x l g)
-  | cse {x : Ind} : ReachableF ss rows x → ReachableF ss rows (cse x)
-  | incAge {x : Ind} : ReachableF ss rows x → ReachableF ss rows (incAge x)
-
 /-- Every history of operator functions is a history of step relations. -/
 theorem reachableF_reachable {ss : SymSet} (hv : ss.Valid) {rows : Nat} (hp : rows ≤ PACK)
     {x : Ind} (h : ReachableF ss rows x) : Reachable ss rows x := by
@@ -587,7 +535,7 @@ theorem reachableF_reachable {ss : SymSet} (hv : ss.Valid) {rows : Nat} (hp : ro
   | getBlock _ hl ih =>
     exact Reachable.getBlock ih hl (wf_get_block (wf_closed hv.cats_pos ih).1 hl).2
   | destroyBlock _ hd ih =>
-    exact Reachable.destroyBlock ih (destroyBlock_refines (wf_closed hv.cats_pos ih).1 hd)
+    exact Reachable.destroyBlock ih (destroyBlock_refines hd)
   | replace _ hg ih =>
     exact Reachable.replace ih hg (wf_replace (wf_closed hv.cats_pos ih).1 hg).2
   | cse _ ih =>
@@ -646,26 +594,6 @@ theorem teamCrossover_refines {lhs rhs : Team} (d : Nat → XDraw)
     rw [getD_map_range _ _ _ _ hk]
   rw [this]
   exact crossover_refines (d k) (hd k hk)
-
-/-- teams produced by any finite sequence of the model team operators -/
-inductive TReachableF (ss : SymSet) (rows : Nat) : Team → Prop
-  | random {pl n : Nat} {xo : Nat → Nat} {d : Nat → Nat → Nat → GDraw} : pl < rows →
-      (∀ k, k < n → xo k < 4 ∧
-        ∀ i, i < rows → ∀ c, c < ss.cats → DrawOK ss rows pl i c (d k i c)) →
-      TReachableF ss rows (teamRandom ss rows pl xo d n)
-  | ofMembers {t : Team} : (∀ x ∈ t, ReachableF ss rows x) → TReachableF ss rows t
-  | mutation {t : Team} {pl : Nat} {eqv : Gene → Gene → Bool} {bern : Nat → Nat → Nat → Bool}
-      {d : Nat → Nat → Nat → GDraw} : TReachableF ss rows t → pl < rows →
-      (∀ k, k < t.length → ∀ i, i < (t.getD k teamMutation.default_ind).rows →
-        ∀ c, c < (t.getD k teamMutation.default_ind).cols →
-          DrawOK ss (t.getD k teamMutation.default_ind).rows pl i c (d k i c)) →
-      TReachableF ss rows (teamMutation ss pl eqv bern d t).1
-  | crossover {lhs rhs : Team} {d : Nat → XDraw} : TReachableF ss rows lhs →
-      TReachableF ss rows rhs → rhs.length = lhs.length →
-      (∀ k, k < lhs.length →
-        XDrawOK (if (d k).b then rhs.getD k teamMutation.default_ind
-                 else lhs.getD k teamMutation.default_ind) (d k)) →
-      TReachableF ss rows (teamCrossover lhs rhs d)
 
 theorem treachableF_treachable {ss : SymSet} (hv : ss.Valid) {rows : Nat} (hp : rows ≤ PACK)
     {t : Team} (h : TReachableF ss rows t) : TReachable ss rows t := by
